@@ -19,7 +19,9 @@ RULE = ("Hypothesis draws files biased to boundary arithmetic (2-6 segments, 1-4
         "None,0..len+2), ALL slices (start/stop in [-len-2,len+2]+None, step in -3..3+None) and ALL integer indices "
         "in [-len-2,len+1] are evaluated lazily and eagerly; longer channels get 60 Hypothesis-drawn requests. "
         "Oracle: NumPy indexing on the model array (for cut files: on the eager full read). Non-trivial: the "
-        "channel has values in >=2 chunks or segments, so windows fall inside chunks and across boundaries.")
+        "channel has values in >=2 chunks or segments, so windows fall inside chunks and across boundaries."
+        ' Every in-range integer index is followed immediately by windows and slices around the element just read (an '
+        'integer index leaves a cached chunk behind).')
 ASSUMPTIONS = [
     "independent encoder vf/encode.py",
     "negative offset/length are outside the statement (domain offset >= 0)",
